@@ -69,6 +69,9 @@ def special_programs(rng, thorough):
                   b"print 72057594037927936\n", "ints"))
     progs.append((b'def a "x" { def b "y" { z = nil; t = true; f = false } }\nbind a -> struct\nbind a:all -> slice\n', "kinds"))
     progs.append((b"", "empty"))
+    progs.append((b"\n", "nl")); progs.append((b"# only a comment", "comment")); progs.append((b"  ", "blank"))
+    # more than 64 KiB of code in one program (the 16-bit limit is per jump, not per program)
+    progs.append((b"eval true\n" * 33000 + b"print 1/0\n", "code66k"))
     # the LAST byte(s) of the dump are the last line-table entry: sweep it over the varint size classes, so that a
     # reader's "are enough bytes left?" logic is exercised exactly at the end of the file
     for k in list(range(236, 246)) + list(range(2283, 2293)) + ([67820, 67823, 67824, 67826] if thorough else []):
